@@ -1080,6 +1080,8 @@ def rule_match(ctx):
     """C03.match - FileSet.match"""
     ctx.rule("C03.match", "T4+T6", "match(): period and secondaries widened by max_interval with the right signs; "
              "tree built from the secondaries, queried with the primaries; indices address the same lists")
+    from .C16 import ob_time_resolution
+    ob_time_resolution(ctx)
     f = ctx.func(FILESET, "FileSet.match")
     flow = Flow(f)
     p_other, p_start, p_end, p_mi = f.params[1], f.params[2], f.params[3], f.params[4]
